@@ -19,10 +19,12 @@ package cache
 
 import (
 	"context"
+	"encoding/json"
 	"fmt"
 	"math/rand"
 	"net"
 	"net/netip"
+	"os"
 	"runtime"
 	"strings"
 	"sync"
@@ -110,6 +112,11 @@ type vC13Down struct {
 	zone       vC13Name
 	zoneEmpty  bool
 	zoneClass  uint16
+	// useful answer to an ECS audience: 0 no ECS option in the response, 1 SCOPE=0 (global),
+	// 2 SCOPE shorter than SOURCE, 3 SCOPE = SOURCE, 4 SCOPE longer than SOURCE (clamped)
+	respScope int
+	// set after the query: the cache filed the answer under an ECS audience
+	storedScoped bool
 }
 
 func (d vC13Down) local() bool {
@@ -129,6 +136,9 @@ func (d vC13Down) coq() string {
 	case 0:
 		return fmt.Sprintf("(PDFail (mk_req_local %v %v %v %v) %s)", d.ctxErr != 0, d.bestEffort, d.workLimit, d.marked != 0, zc)
 	case 1:
+		if d.storedScoped {
+			return fmt.Sprintf("(PDUsefulScoped %s)", zc)
+		}
 		return fmt.Sprintf("(PDUseful %s)", zc)
 	}
 	return "PDTrunc"
@@ -155,6 +165,9 @@ func (d vC13Down) String() string {
 	}
 	if d.marked != 0 {
 		s = append(s, []string{"", "mark:attempt-limit", "mark:probe-limit", "mark:max-recursion", "mark:canceled", "mark:deadline", "mark:work-limit"}[d.marked])
+	}
+	if d.respScope != 0 {
+		s = append(s, []string{"", "answer SCOPE=0", "answer SCOPE<SOURCE", "answer SCOPE=SOURCE", "answer SCOPE>SOURCE"}[d.respScope])
 	}
 	if d.zoneAct {
 		if d.kind == 1 {
@@ -254,6 +267,19 @@ func vC13Serve(c *Cache, ednsH middleware.Handler, k vC13QKey, edns, do, wire bo
 				resp.Answer = []dns.RR{&dns.A{Hdr: dns.RR_Header{Name: q.Name, Rrtype: dns.TypeA, Class: q.Qclass, Ttl: 300}, A: []byte{192, 0, 2, 80}}}
 			} else {
 				resp.Ns = []dns.RR{&dns.SOA{Hdr: dns.RR_Header{Name: ".", Rrtype: dns.TypeSOA, Class: q.Qclass, Ttl: 300}, Ns: "a.", Mbox: "b.", Serial: 1, Refresh: 1, Retry: 1, Expire: 1, Minttl: 300}}
+			}
+			if d.respScope != 0 && k.scope.IsValid() {
+				// the authority's ECS answer: the audience it says the answer is good for
+				a := k.scope.Masked().Addr()
+				fam, src := uint16(2), k.scope.Bits()
+				if a.Is4() {
+					fam = 1
+				}
+				sc := []int{0, 0, src - 8, src, src + 8}[d.respScope]
+				resp.SetEdns0(1232, false)
+				resp.IsEdns0().Option = append(resp.IsEdns0().Option, &dns.EDNS0_SUBNET{
+					Code: dns.EDNS0SUBNET, Family: fam, SourceNetmask: uint8(src), SourceScope: uint8(sc), Address: net.IP(a.AsSlice()),
+				})
 			}
 			if d.zoneAct {
 				z := d.zone.pres()
@@ -390,6 +416,21 @@ func vC13PipeHistory(r *rand.Rand) map[string]any {
 		})
 		return b
 	}
+	// the answers cached so far have lived out their TTL
+	expireAnswers := func() {
+		var keys []uint64
+		c.store.ForEach(func(positive bool, key uint64, _ *CacheEntry) bool {
+			if positive {
+				keys = append(keys, key)
+			}
+			return true
+		})
+		for _, key := range keys {
+			c.positive.Remove(key)
+		}
+		steps = append(steps, "PExpireAnswers")
+		desc = append(desc, "cached answers expire")
+	}
 	nsteps := 10 + r.Intn(16)
 	// directed episode: fail, let the backoff end, recover, let the answer expire,
 	// fail again, and ask once more between one and two initial intervals later —
@@ -407,19 +448,7 @@ func vC13PipeHistory(r *rand.Rand) map[string]any {
 			script = i
 		}
 		if script == 3 || (script < 0 && r.Intn(12) == 0) {
-			// the answers cached so far have lived out their TTL
-			var keys []uint64
-			c.store.ForEach(func(positive bool, key uint64, _ *CacheEntry) bool {
-				if positive {
-					keys = append(keys, key)
-				}
-				return true
-			})
-			for _, key := range keys {
-				c.positive.Remove(key)
-			}
-			steps = append(steps, "PExpireAnswers")
-			desc = append(desc, "cached answers expire")
+			expireAnswers()
 			continue
 		}
 		if script == 1 || script == 5 || script == 7 || (script < 0 && r.Intn(4) == 0) {
@@ -556,6 +585,11 @@ func vC13PipeHistory(r *rand.Rand) map[string]any {
 				d.zone = g.caseMix(k.name[cut:])
 				d.zoneEmpty = r.Intn(15) == 0
 			}
+			if k.scope.IsValid() && k.scope.Bits() >= 16 {
+				// what the authority says about the answer's audience must not matter for
+				// whose failure state the recovery resets: that is the client's audience
+				d.respScope = r.Intn(5)
+			}
 		default:
 			d.kind = 2
 			d.rcode = []int{dns.RcodeServerFailure, dns.RcodeSuccess}[r.Intn(2)]
@@ -569,6 +603,7 @@ func vC13PipeHistory(r *rand.Rand) map[string]any {
 		rcode, ede, calls, scope := vC13Serve(c, ednsH, k, edns, r.Intn(2) == 0, wire, d)
 		mk := k
 		mk.scope = scope // the audience the cache derived from the ECS option
+		d.storedScoped = d.kind == 1 && d.respScope >= 2 && scope.IsValid() && calls > 0
 		tab.addQuestion(mk)
 		if d.zoneAct {
 			tab.addZone(d.zone, d.zoneClass)
@@ -586,6 +621,11 @@ func vC13PipeHistory(r *rand.Rand) map[string]any {
 		}
 		steps = append(steps, fmt.Sprintf("PQuery %s %v %s %d %s %d %d", mk.coq(), edns || k.scope.IsValid(), d.coq(), rcode, edeC, calls, c.store.FailureLen()))
 		desc = append(desc, fmt.Sprintf("query %s edns=%v wire=%v downstream{%s} -> rcode=%d ede=%d downstream_calls=%d failure_len=%d", mk.coq(), edns, wire, d.String(), rcode, ede, calls, c.store.FailureLen()))
+		if d.storedScoped {
+			// an answer filed under an ECS audience: the run's model of the answer cache
+			// (a set of questions) does not cover audience-scoped answers, so they leave at once
+			expireAnswers()
+		}
 	}
 	final := "[]"
 	exact := !shiftMode
@@ -975,12 +1015,147 @@ func vC13WireGateCase(t *testing.T, r *rand.Rand) map[string]any {
 	}
 }
 
+// ---------------------------------------------------------------- corpus
+// Fixed recovery episodes (VERIF_CORPUS/pipe.json), replayed first on every
+// run: question fails -> backoff ends -> the probe brings a useful answer (with
+// the given response SCOPE) -> the answer expires -> the question fails again ->
+// one initial interval later it must be asked upstream again (the second
+// failure started a new episode at the minimum backoff).
+type vC13PipeCorpusCase struct {
+	Name      string `json:"name"`
+	Qtype     uint16 `json:"qtype"`
+	CD        bool   `json:"cd"`
+	Scope     string `json:"scope"`      // client ECS source prefix, "" = none
+	RespScope int    `json:"resp_scope"` // 0 none, 1 SCOPE=0, 2 shorter, 3 equal, 4 longer than SOURCE
+	Zone      string `json:"zone"`       // the first failure also publishes this zone failure ("" = none)
+	InitS     int    `json:"init_s"`
+	MaxS      int    `json:"max_s"`
+}
+
+func vC13PipeCorpus(t *testing.T) []vC13PipeCorpusCase {
+	dir := os.Getenv("VERIF_CORPUS")
+	if dir == "" {
+		return nil
+	}
+	b, err := os.ReadFile(dir + "/pipe.json")
+	if os.IsNotExist(err) {
+		return nil
+	}
+	if err != nil {
+		t.Fatalf("corpus: %v", err)
+	}
+	var out []vC13PipeCorpusCase
+	if err := json.Unmarshal(b, &out); err != nil {
+		t.Fatalf("corpus pipe.json: %v", err)
+	}
+	return out
+}
+
+func vC13PipeEpisode(t *testing.T, ep vC13PipeCorpusCase) map[string]any {
+	cfg := &config.Config{CacheSize: 1024, Expire: 300}
+	cfg.ECS.Enabled = true
+	cfg.ECS.ClientNetworks = []string{"0.0.0.0/0", "::/0"}
+	cfg.ECS.ForwardV4Max = 24
+	cfg.ECS.ForwardV6Max = 56
+	rawInit, rawMax := time.Duration(ep.InitS)*time.Second, time.Duration(ep.MaxS)*time.Second
+	cfg.RecursionFirewall.FailureCacheMinTTL.Duration = rawInit
+	cfg.RecursionFirewall.FailureCacheMaxTTL.Duration = rawMax
+	c := New(cfg)
+	defer c.Stop()
+	ednsH := ednsmw.New(cfg)
+	clock := &vC13Clock{now: vC13Base}
+	c.failure.now = clock.Now
+	init, max := c.failure.initialTTL, c.failure.maxTTL
+	k := vC13QKey{name: vC13LabelsOf(ep.Name), qtype: ep.Qtype, qclass: dns.ClassINET, cd: ep.CD}
+	if ep.Scope != "" {
+		pfx, err := netip.ParsePrefix(ep.Scope)
+		if err != nil {
+			t.Fatalf("corpus pipe.json: scope %q: %v", ep.Scope, err)
+		}
+		k.scope = pfx
+	}
+	tab := newVC13Tab()
+	var steps, desc []string
+	cachedHits, downstreamCalls := 0, 0
+	advance := func(dt time.Duration) {
+		clock.now = clock.now.Add(dt)
+		steps = append(steps, fmt.Sprintf("PAdvance %d", int64(dt)))
+		desc = append(desc, "advance "+dt.String())
+	}
+	expire := func() {
+		var keys []uint64
+		c.store.ForEach(func(positive bool, key uint64, _ *CacheEntry) bool {
+			if positive {
+				keys = append(keys, key)
+			}
+			return true
+		})
+		for _, key := range keys {
+			c.positive.Remove(key)
+		}
+		steps = append(steps, "PExpireAnswers")
+		desc = append(desc, "cached answers expire")
+	}
+	query := func(d vC13Down) {
+		rcode, ede, calls, scope := vC13Serve(c, ednsH, k, true, false, false, d)
+		mk := k
+		mk.scope = scope
+		d.storedScoped = d.kind == 1 && d.respScope >= 2 && scope.IsValid() && calls > 0
+		tab.addQuestion(mk)
+		if d.zoneAct {
+			tab.addZone(d.zone, d.zoneClass)
+		}
+		if calls == 0 && rcode == dns.RcodeServerFailure {
+			cachedHits++
+		}
+		downstreamCalls += calls
+		edeC := "None"
+		if ede >= 0 {
+			edeC = fmt.Sprintf("(Some %d%%N)", ede)
+		}
+		steps = append(steps, fmt.Sprintf("PQuery %s %v %s %d %s %d %d", mk.coq(), true, d.coq(), rcode, edeC, calls, c.store.FailureLen()))
+		desc = append(desc, fmt.Sprintf("query %s downstream{%s} -> rcode=%d ede=%d downstream_calls=%d failure_len=%d", mk.coq(), d.String(), rcode, ede, calls, c.store.FailureLen()))
+		if d.storedScoped {
+			expire()
+		}
+	}
+	fail := vC13Down{kind: 0, rcode: dns.RcodeServerFailure}
+	first := fail
+	if ep.Zone != "" {
+		first.zoneAct, first.zone, first.zoneClass = true, vC13LabelsOf(ep.Zone), dns.ClassINET
+	}
+	useful := vC13Down{kind: 1, rcode: dns.RcodeNameError, respScope: ep.RespScope}
+	if ep.Qtype == dns.TypeA {
+		useful.rcode = dns.RcodeSuccess
+	}
+	query(first)
+	query(fail) // inside the backoff: served from the failure cache
+	advance(init + time.Second)
+	query(useful)
+	expire()
+	query(fail)
+	advance(init + time.Second)
+	query(fail) // a new episode began: this one goes upstream again
+	advance(init - time.Second)
+	query(fail) // and is suppressed for the initial interval only
+	final, _ := vC13Dump(c.failure)
+	return map[string]any{
+		"k": "pipe-corpus-episode",
+		"coq": fmt.Sprintf("CasePipe (%d) (%d) (%d) %v %v (%d) (%d) %s [%s] %s", 0, int64(rawInit), int64(rawMax), false, true, int64(init), int64(max), tab.coq(), strings.Join(steps, ";"), final),
+		"nontrivial": cachedHits > 0 && downstreamCalls > 0,
+		"desc":       map[string]any{"episode": ep, "effective": init.String() + ".." + max.String(), "steps": desc, "cached_failure_answers": cachedHits, "downstream_calls": downstreamCalls},
+	}
+}
+
 func TestVerifC13Pipe(t *testing.T) {
 	tr := vC13Open(t)
 	defer tr.f.Close()
 	seed := int64(vC13EnvInt("VERIF_SEED", 1))
 	n := vC13EnvInt("VERIF_N", 200)
 	r := rand.New(rand.NewSource(seed + 1000003))
+	for _, ep := range vC13PipeCorpus(t) {
+		tr.emit(vC13PipeEpisode(t, ep))
+	}
 	for i := 0; i < n; i++ {
 		tr.emit(vC13PipeHistory(r))
 	}
